@@ -674,6 +674,7 @@ impl<'a> Searcher<'a> {
 
                                     if search_archives
                                         && self.is_zip_archive(&path.to_string_lossy())
+                                        && is_content_readable(&path)
                                     {
                                         if let Ok(file) = fs::File::open(&path) {
                                             if let Ok(mut archive) = zip::ZipArchive::new(file) {
@@ -1023,6 +1024,10 @@ impl<'a> Searcher<'a> {
         field: &Field,
     ) -> Variant {
         if file_info.is_some() && !field.is_available_for_archived_files() {
+            return Variant::empty(VariantType::String);
+        }
+
+        if file_info.is_none() && field.reads_file_content() && !is_content_readable(&entry.path()) {
             return Variant::empty(VariantType::String);
         }
 
